@@ -61,6 +61,9 @@ int main(int argc, char **argv)
 		else if (!strcmp(op, "modn_mont_exp")) sm2_z256_modn_mont_exp(r, a, e); else if (!strcmp(op, "modn_mont_inv")) sm2_z256_modn_mont_inv(r, a);
 		else {
 			haspoint = 1; mkpoint(&P, Pb, pl, lb, ll); mkpoint(&Q, Qb, ql, NULL, 0);
+			// the point at infinity in the form the library's own operations produce it, (0:0:0), instead of set_infinity's (1:1:0)
+			if (pl != 64 && kv_int(&kv, "zinfP", 0)) memset(&P, 0, sizeof P);
+			if (ql != 64 && kv_int(&kv, "zinfQ", 0)) memset(&Q, 0, sizeof Q);
 			if (!strcmp(op, "point_dbl")) sm2_z256_point_dbl(&R, &P);
 			else if (!strcmp(op, "point_add")) sm2_z256_point_add(&R, &P, &Q);
 			else if (!strcmp(op, "point_sub")) sm2_z256_point_sub(&R, &P, &Q);
